@@ -6,7 +6,7 @@ V = os.path.dirname(os.path.dirname(os.path.abspath(__file__)))
 CLAIMED = {
  "C01": {
   "technique": "Lean 4 theorems over macros/emitter table regenerated from the C source + runtime-ops differential tie",
-  "text": "Every integer macro and portable fallback of w2c2_base.h, regenerated from the current source as a C AST, is proved (for all 2^32/2^64 operand values, incl. trap codes) equal to the WebAssembly operator of Spec.Int; the regenerated AST is additionally run against the gcc-compiled real macro and the spec on boundary+random operands on every run.",
+  "text": "Every integer macro and portable fallback of w2c2_base.h, regenerated from the current source as a C AST, is proved (for all 2^32/2^64 operand values, incl. trap codes) equal to the WebAssembly operator of Spec.Int — all six portable fallback bodies (32/64-bit CLZ, CTZ, POPCNT) included; 66 per-opcode theorems (C01Ops) state the same for the statement w2c2 emits for each integer opcode; operands given as immediates go through the whole pipeline (reader, literal, compiler); the regenerated AST is additionally run against the gcc-compiled real macro and the spec on boundary+random operands on every run.",
   "design_ref": "DESIGN.md §5 C01",
   "note": "Trusted: Lean kernel; propext/Classical.choice/Quot.sound; per-theorem bv_decide axioms (listed in evidence); tools/extract translator (validated against compiled macros each run); CSem's reading of C (modular casts, arithmetic >>); gcc builtins as documented.",
  },
@@ -66,9 +66,9 @@ CLAIMED = {
  },
  "C08": {
   "technique": "Lean 4 theorems over the binary reader model (LEB128 decoders and section dispatch with constants regenerated from reader.c/leb128.h) + byte-level correspondence with the real reader on re-encoded modules",
-  "text": "LEB128: for every value and every padded encoding up to the maximal length the regenerated decoders return the value and consume exactly the encoding (unsigned/signed, 32/64), with no UB for any buffer. Reader: custom sections anywhere and padded size fields do not change the decoded module (sections_framing_invariant, no hypothesis on the section readers), absent sections decode as empty, flag-0 and flag-2/memory-0 data segments decode equal, encode/decode round trip for the covered sections. The real reader's dump is compared with the model on modules re-encoded with minimal/maximal/random LEB widths, custom sections at every boundary, empty vs omitted sections; the real translator's emitted definitions are compared across encodings.",
+  "text": "LEB128: for every value and every padded encoding up to the maximal length the regenerated decoders return the value and consume exactly the encoding (unsigned/signed, 32/64), with no UB for any buffer. Reader: custom sections anywhere and padded size fields do not change the decoded module (sections_framing_invariant, no hypothesis on the section readers), absent sections decode as empty, flag-0 and flag-2/memory-0 data segments decode equal (data_flag0_eq_flag2); read_encode_roundtrip / module_roundtrip (Props/C08Sections): EVERY specification encoding of every section kind w2c2 supports — type, import, function, table, memory, global, export, start, element, data-count, code, data, custom, and the name section under -g — is accepted and decoded to the section's abstract content whatever follows; two encodings of the same module are both accepted and give the same module (module_encodings_agree). The real reader's dump is compared with the model on modules re-encoded with minimal/maximal/random LEB widths, custom sections at every boundary, empty vs omitted sections; the real translator's emitted definitions are compared across encodings.",
   "design_ref": "DESIGN.md §5 C08",
-  "note": "read_encode_roundtrip_partial covers type/function/table/memory/start/datacount sections; import/global/export/element/code/data round trip is tied by the dump correspondence only. emit_encoding_independent is tied by real translator runs. Trusted: tools/extract/gen_reader.py; the hand-written reader model (tied by reader-dump).",
+  "note": "Explicit decidable hypotheses name what the real reader rejects (constant expressions other than one const/global.get, element forms other than 0, export indices out of range, code count ≠ function count). Function bodies and constant expressions are kept as raw bytes by the reader: their immediates are decoded by the C writer, tied by the encoding-metamorphic runs of the real translator (emit_encoding_independent). Trusted: tools/extract/gen_reader.py; the hand-written reader model (tied by reader-dump).",
  },
  "C10": {
   "technique": "Lean 4 theorems about buffer sizes / UB sites of the reader model + sanitizer (ASan/UBSan, gcc and clang) runs of the real translator on valid modules, all prefixes and the option matrix",
